@@ -42,6 +42,9 @@ pub enum Step {
     WaitDeliveredWithin(usize, u64),
     /// wait (bounded) until the tower is holding a request of the client
     WaitInFlight(usize),
+    /// a user command that makes the client talk to the tower (getsubscriptioninfo, getappointment, pingtower);
+    /// whatever it answers, it must answer
+    Query(usize, String),
 }
 
 #[derive(Clone, Debug, serde::Serialize, serde::Deserialize)]
@@ -379,6 +382,17 @@ pub fn run_scenario(sc: &Scenario, props: &[&'static str]) -> Trace {
                     }
                 }
             }
+            Step::Query(t, cmd) => {
+                let id = cx.tower_hex(*t);
+                let params = if cmd == "getappointment" { json!([id, revocation(1).1]) } else { json!([id]) };
+                let r = cx.client.as_mut().and_then(|c| c.call(cmd, params, Duration::from_secs(5)));
+                let ok = r.as_ref().map_or(false, |v| v.get("result").is_some());
+                cx.trace.events.push(format!("{cmd}({t}) -> {}", if r.is_none() { "NO ANSWER" } else if ok { "ok" } else { "error" }));
+                if r.is_none() {
+                    cx.v("C14", format!("{cmd}-unanswered"), "no reply within 5 s".into());
+                }
+                cx.check_alive(&name);
+            }
             Step::WaitInFlight(t) => {
                 let tw = &cx.towers[*t];
                 let ok = wait_until(Duration::from_secs(8), || tw.state.lock().unwrap().in_flight > 0);
@@ -565,6 +579,17 @@ fn c14_scenarios(tier: Tier) -> Vec<Scenario> {
         opts: RetryOpts::default(),
         steps: vec![Step::Register(0), Step::Script(0, add.clone(), vec![Reply::WrongKey]), Step::Revoke(1), Step::Register(0), Step::Revoke(2), Step::Settle, Step::Restart, Step::Revoke(3), Step::Settle],
     });
+    // proven misbehaving, then a user command finds the tower down (resp. gets garbage): it stays misbehaving and
+    // nothing more is sent once it is back
+    for cmd in ["getsubscriptioninfo", "getappointment", "pingtower", "registertower"] {
+        let q = if cmd == "registertower" { Step::RegisterExpectError(0) } else { Step::Query(0, cmd.into()) };
+        v.push(Scenario {
+            name: format!("misbehaving-then-{cmd}-while-down"),
+            towers: 1,
+            opts: RetryOpts::default(),
+            steps: vec![Step::Register(0), Step::Script(0, add.clone(), vec![Reply::WrongKey]), Step::Revoke(1), Step::Settle, Step::Down(0), q, Step::Up(0), Step::Revoke(2), Step::Settle, Step::Restart, Step::Revoke(3), Step::Settle],
+        });
+    }
     // proven misbehaving on the retry path (the appointment is still pending next to the proof), then a restart
     v.push(Scenario {
         name: "misbehaving-on-retry-path-then-restart".into(),
